@@ -308,6 +308,17 @@ func runSeq(rep *hx.Report, rng *hx.Rng, o *hx.Opts, dS3, iS3 bool, faultAt stri
 			rep.Hit("store:two-recipients")
 		}
 		_, data := w.Deliver("a@example.org", rcpts, msg)
+		if faultAt == "store" && step == faultStep && iS3 {
+			// the IMAP side stores too (APPEND), through its own handle on the object store, under the same faults: whatever
+			// becomes of this message, the parts stored before stay readable afterwards
+			f.Mu.Lock()
+			f.Script = append([]string(nil), faults...)
+			f.Mu.Unlock()
+			ca := w.Login(st.user)
+			ca.Append("Drafts", "", strings.Replace(msg, "Subject: "+st.tok, "Subject: appended-"+st.tok, 1))
+			ca.Close()
+			rep.Hit("store:append-under-fault")
+		}
 		f.Mu.Lock()
 		f.Script = nil
 		f.Mu.Unlock()
